@@ -1,8 +1,10 @@
 //! Shared machinery of the correspondence harness: PRNG, driver pipe, report writer.
 pub mod cfbw;
 pub mod driver;
+pub mod odsw;
 pub mod report;
 pub mod rng;
+pub mod xlsbw;
 pub mod xlsw;
 
 use std::panic::{catch_unwind, AssertUnwindSafe};
